@@ -1,3 +1,4 @@
+import Proofs.C07Pins
 import Proofs.ScannerChunk
 import Proofs.C07Splitters
 import Proofs.C07Regex
@@ -147,3 +148,17 @@ example : scan (splitByte 59) [] [[97, 59], [59, 98]] false = [([97], [59]), ([]
   simp [scan, splitByte, indexByte]
 
 end GoawkModel.C07.Props
+
+/-! ## Pinned source text (regenerated tie; extract/pins.go, tools/repin.py)
+An edit of one of these functions in /repo breaks the matching obligation: the model below was written from the text
+in `Proofs.C07Pins` and has to be compared with the new text before it is re-pinned. -/
+namespace GoawkModel.Pins.C07
+theorem pin_dropCR : Generated.C07Pins.dropCR = Expected.dropCR := rfl
+theorem pin_dropLF : Generated.C07Pins.dropLF = Expected.dropLF := rfl
+theorem pin_blankLineSplitter_scan : Generated.C07Pins.blankLineSplitter_scan = Expected.blankLineSplitter_scan := rfl
+theorem pin_byteSplitter_scan : Generated.C07Pins.byteSplitter_scan = Expected.byteSplitter_scan := rfl
+theorem pin_regexSplitter_scan : Generated.C07Pins.regexSplitter_scan = Expected.regexSplitter_scan := rfl
+theorem pin_newScanner : Generated.C07Pins.newScanner = Expected.newScanner := rfl
+theorem pin_list : Generated.C07Pins.pinned = Expected.pinned := rfl
+end GoawkModel.Pins.C07
+-- end of pinned source text
